@@ -13,6 +13,7 @@ type lexer struct {
 	tokenType int
 	inString  bool
 	err       error
+	verif     verifLexState
 }
 
 func newLexer(src string) *lexer {
@@ -46,6 +47,7 @@ var keywords = map[string]int{
 }
 
 func (l *lexer) Lex(lval *yySymType) (tokenType int) {
+	l.verifPoint()
 	defer func() { l.tokenType = tokenType }()
 	if len(l.source) == l.offset {
 		l.token = ""
